@@ -578,12 +578,20 @@ def rule_gate(c: Ctx) -> RuleResult:
             found[k] += 1
             bad = ""
             toks: set[str] = set()
-            for s in n.body:
+            body = list(n.body)
+            hf = f
+            if k == "inline_definitions" and len(body) == 1 and isinstance(body[0], ast.Expr) and isinstance(body[0].value, ast.Call):
+                # the gated work moved into a private helper: its statements are held to the same rule
+                cs0 = c.cg.site_of.get(body[0].value)
+                if cs0 is not None and len(cs0.callees) == 1 and cs0.kind in ("direct", "method") and cs0.callees[0].module is f.module:
+                    hf = cs0.callees[0]
+                    body = [s_ for s_ in hf.node.body if not (isinstance(s_, ast.Expr) and isinstance(s_.value, ast.Constant))]
+            for s in body:
                 if k == "inline_definitions":
                     if isinstance(s, ast.Assign) and len(s.targets) == 1 and isinstance(s.targets[0], ast.Name) and isinstance(s.value, ast.Call):
                         cs = c.cg.site_of.get(s.value)
                         ks = literal_strs(s.value.args[0]) if s.value.args else None
-                        if cs is not None and any(g.name == "push" for g in cs.callees) and ks == ["definition"]:
+                        if cs is not None and any(g_.name == "push" for g_ in cs.callees) and ks == ["definition"]:
                             toks.add(s.targets[0].id)
                             continue
                     if isinstance(s, ast.Assign) and all(isinstance(t, ast.Attribute) and isinstance(t.value, ast.Name) and t.value.id in toks
